@@ -20,15 +20,20 @@ use vmodel::{
 
 pub const SUB: &str = "hook-free";
 
-fn bin(on: bool) -> String {
-    vmodel::rooted(&format!("harness/target/plain-{}/release/plainrun", if on { "on" } else { "off" }))
+/// 0: no hooks, checked build; 1: hooks, checked build; 2: no hooks, no debug assertions / overflow checks, opt-level 3
+const BUILDS: [(&str, &str); 3] = [("off", "release"), ("on", "release"), ("rel", "plain")];
+const BUILD_NAMES: [&str; 3] = ["without verif-hooks", "with verif-hooks", "without verif-hooks, debug assertions and overflow checks"];
+
+fn bin(k: usize) -> String {
+    vmodel::rooted(&format!("harness/target/plain-{}/{}/plainrun", BUILDS[k].0, BUILDS[k].1))
 }
 
 /// Builds both runners from the repository's current tree (parent process, once per run)
 pub fn build() -> Result<(), String> {
-    for on in [false, true] {
-        let mut args = vec!["build", "--release", "-p", "plainrun", "--target-dir"];
-        let td = vmodel::rooted(&format!("harness/target/plain-{}", if on { "on" } else { "off" }));
+    for k in 0..3 {
+        let on = k == 1;
+        let mut args = vec!["build", "--profile", BUILDS[k].1, "-p", "plainrun", "--target-dir"];
+        let td = vmodel::rooted(&format!("harness/target/plain-{}", BUILDS[k].0));
         args.push(&td);
         if on {
             args.extend(["--features", "hooks"]);
@@ -37,7 +42,7 @@ pub fn build() -> Result<(), String> {
         if !o.status.success() {
             return Err(format!(
                 "plainrun ({}) does not build: {}",
-                if on { "hooks on" } else { "hooks off" },
+                BUILD_NAMES[k],
                 String::from_utf8_lossy(&o.stderr).lines().rev().take(8).collect::<Vec<_>>().join(" | ")
             ));
         }
@@ -51,24 +56,24 @@ struct Proc {
     stdout: BufReader<ChildStdout>,
 }
 
-fn spawn(on: bool) -> Result<Proc, String> {
-    let mut child = Command::new(bin(on)).stdin(Stdio::piped()).stdout(Stdio::piped()).stderr(Stdio::null()).spawn().map_err(|e| format!("{}: {}", bin(on), e))?;
+fn spawn(k: usize) -> Result<Proc, String> {
+    let mut child = Command::new(bin(k)).stdin(Stdio::piped()).stdout(Stdio::piped()).stderr(Stdio::null()).spawn().map_err(|e| format!("{}: {}", bin(k), e))?;
     let stdin = child.stdin.take().unwrap();
     let stdout = BufReader::new(child.stdout.take().unwrap());
     Ok(Proc { child, stdin, stdout })
 }
 
 thread_local! {
-    static PROCS: RefCell<[Option<Proc>; 2]> = const { RefCell::new([None, None]) };
+    static PROCS: RefCell<[Option<Proc>; 3]> = const { RefCell::new([None, None, None]) };
 }
 
 /// One request through one of the two runners; Err = the process died (abort, stack overflow, ...)
-fn ask(on: bool, req: &str) -> Result<String, String> {
+fn ask(k: usize, req: &str) -> Result<String, String> {
     PROCS.with(|p| {
         let mut p = p.borrow_mut();
-        let slot = &mut p[on as usize];
+        let slot = &mut p[k];
         if slot.is_none() {
-            *slot = Some(spawn(on)?);
+            *slot = Some(spawn(k)?);
         }
         let pr = slot.as_mut().unwrap();
         let sent = writeln!(pr.stdin, "{}", req).and_then(|_| pr.stdin.flush());
@@ -126,41 +131,45 @@ pub fn judge(c: &Case) -> Result<bool, (String, String)> {
 /// Ok(non-trivial) or the failure
 pub fn judge_req(req: &Value) -> Result<bool, (String, String)> {
     let req = req.to_string();
-    let off = ask(false, &req);
-    let on = ask(true, &req);
     let clip = |s: &str| if s.len() > 1500 { format!("{}…", &s[..s.char_indices().take_while(|(i, _)| *i < 1500).last().map(|(i, _)| i).unwrap_or(0)]) } else { s.to_string() };
-    match (&off, &on) {
-        (Ok(a), Ok(b)) => {
-            if a.contains("\"panic\"") {
-                return Err(("no panic in the build without verif-hooks".into(), clip(a)));
+    let mut outs: Vec<String> = Vec::new();
+    for k in 0..3 {
+        match ask(k, &req) {
+            Ok(a) => {
+                if a.contains("\"panic\"") {
+                    return Err((format!("no panic in the build {}", BUILD_NAMES[k]), clip(&a)));
+                }
+                if a.contains("\"bad_request\"") {
+                    return Err(("a well-formed request".into(), clip(&a)));
+                }
+                outs.push(a);
             }
-            if a.contains("\"bad_request\"") {
-                return Err(("a well-formed request".into(), clip(a)));
-            }
-            if a != b {
-                // first differing step
-                let va: Value = serde_json::from_str(a).unwrap_or(Value::Null);
-                let vb: Value = serde_json::from_str(b).unwrap_or(Value::Null);
-                let mut at = "outside the steps".to_string();
-                if let (Some(sa), Some(sb)) = (va["steps"].as_array(), vb["steps"].as_array()) {
-                    for (i, (x, y)) in sa.iter().zip(sb.iter()).enumerate() {
-                        if x != y {
-                            at = format!("op #{}: hooks off {} / hooks on {}", i, x, y);
-                            break;
-                        }
+            Err(e) => return Err((format!("the build {} survives the session", BUILD_NAMES[k]), e)),
+        }
+    }
+    for k in [1usize, 2] {
+        let (a, b) = (&outs[0], &outs[k]);
+        if a != b {
+            // first differing step
+            let va: Value = serde_json::from_str(a).unwrap_or(Value::Null);
+            let vb: Value = serde_json::from_str(b).unwrap_or(Value::Null);
+            let mut at = "outside the steps".to_string();
+            if let (Some(sa), Some(sb)) = (va["steps"].as_array(), vb["steps"].as_array()) {
+                for (i, (x, y)) in sa.iter().zip(sb.iter()).enumerate() {
+                    if x != y {
+                        at = format!("op #{}: {} / {}", i, x, y);
+                        break;
                     }
                 }
-                return Err((
-                    "the build without verif-hooks behaves exactly like the build with them (sink calls, results, handler log)".into(),
-                    format!("first difference at {}; hooks off: {}; hooks on: {}", at, clip(a), clip(b)),
-                ));
             }
-            // non-trivial: something reached the handler or an API call happened
-            Ok(a.contains("\"name\"") || req.contains("\"w\"") || req.contains("\"p\""))
+            return Err((
+                format!("the build {} behaves exactly like the build {} (sink calls, results, handler log)", BUILD_NAMES[0], BUILD_NAMES[k]),
+                format!("first difference at {}; first build: {}; second build: {}", at, clip(a), clip(b)),
+            ));
         }
-        (Err(e), _) => Err(("the build without verif-hooks survives the session".into(), e.clone())),
-        (_, Err(e)) => Err(("the build with verif-hooks survives the session".into(), e.clone())),
     }
+    // non-trivial: something reached the handler or an API call happened
+    Ok(outs[0].contains("\"name\"") || req.contains("\"w\"") || req.contains("\"p\""))
 }
 
 pub fn stage(ctx: &ShardCtx, total: u64, opts: GenOpts, sets: &'static [&'static str]) {
